@@ -142,3 +142,15 @@ Proof. vm_compute. reflexivity. Qed.
 Lemma reload_ids_are_whole_words :
   fn_body ReloadId_fields = [EPath ["usize"]] /\ fn_body AtomicReloadId_fields = [EPath ["AtomicUsize"]].
 Proof. vm_compute. split; reflexivity. Qed.
+
+(* ReloadId::update is the comparison, the conditional assignment and the answer -- no assertion or
+   other statement that could make an older offer do anything but answer false *)
+Definition plain_update_wf (f : fn_def) : bool :=
+  match fn_body f with
+  | [ELetS (PIdent n None) (Some (EBinary ">" (EPath ["new"]) (EUnary "*" (EPath ["self"])))) None;
+     EIf (EPath [n']) [ESemi (EAssign (EUnary "*" (EPath ["self"])) (EPath ["new"]))] None;
+     EPath [n'']] => String.eqb n n' && String.eqb n n''
+  | _ => false
+  end.
+Lemma update_is_total : plain_update_wf ReloadId_update = true.
+Proof. vm_compute. reflexivity. Qed.
